@@ -1,0 +1,16 @@
+//go:build verif
+
+package keeper
+
+import "github.com/bianjieai/tibc-go/modules/tibc/apps/nft_transfer/types"
+
+// TokenKeeperWrapper lets a verification harness built with the "verif" tag decorate the token keeper the
+// transfer keeper talks to (fault injection at every token-module call). Nil = no decoration.
+var TokenKeeperWrapper func(types.NftKeeper) types.NftKeeper
+
+func wrapTokenKeeper(k types.NftKeeper) types.NftKeeper {
+	if TokenKeeperWrapper != nil {
+		return TokenKeeperWrapper(k)
+	}
+	return k
+}
